@@ -92,6 +92,7 @@ func Run(run *ev.Run) {
 		for _, g := range []string{"authorization_code", "refresh_token", "client_credentials", "jwt-bearer", "token-exchange", "device_code"} {
 			mand = append(mand, "http:grant-reached-storage:"+g+":"+rn)
 		}
+		mand = append(mand, "http:storage-fault-fired:"+rn)
 	}
 	run.Mandatory(mand...)
 
@@ -164,6 +165,19 @@ func runCase(run *ev.Run, fl *inflight, worker, caseIdx, router int) {
 		for i := 0; i < batchPerCase; i++ {
 			q := x.nextRequest()
 			x.stats.fuzz++
+			// one request in five also meets a failing storage: the k-th storage call of the request answers an
+			// injected error (three kinds). Whatever the handler answers, the structural obligations stay the same:
+			// no panic, one response, nothing mutating after an error answer.
+			if x.r.IntN(5) == 0 {
+				x.w.Store.Arm(&vstore.FaultPlan{At: 1 + x.r.IntN(6), Kind: vstore.FaultKind(x.r.IntN(int(vstore.NumFaultKinds)))})
+				resp := x.exec(q, router)
+				if x.w.Store.Fired() > 0 {
+					run.Count("http:storage_fault_fired", fmt.Sprintf("%s %s -> %d", x.rname, x.endpointOf(router, pathOf(q)), resp.Status))
+					run.Observed("http:storage-fault-fired:" + x.rname)
+				}
+				x.w.Store.Arm(nil)
+				continue
+			}
 			x.exec(q, router)
 		}
 	}); pi != nil {
@@ -652,3 +666,12 @@ func (fl *inflight) close() {
 
 var _ = vstore.Full
 var _ = url.Parse
+
+// pathOf is the path component of the request target.
+func pathOf(q *Req) string {
+	t := string(q.Target)
+	if i := strings.IndexAny(t, "?#"); i >= 0 {
+		t = t[:i]
+	}
+	return t
+}
